@@ -33,9 +33,18 @@ from bounded.registry import standin
 
 # class of a violation -> listed finding it is an instance of (DESIGN.md §9)
 CLASS_TO_FINDING: Dict[str, str] = {
+    # fixed defects stay mapped: a fixed id is never in `known`, so a re-occurrence is reported
     "print-capitalised-mnemonic": "D16",
     "method-quotes-lost": "D17",
     "regex-covered-incomplete": "D10",
+    "comment-glued-to-token": "D26",
+    "tokeniser-drops-token-before-glued-comment": "D26",
+    "base64-double-slash-taken-as-comment": "D27",
+    "string-literal-ending-in-escaped-backslash": "D28",
+    "tokeniser-string-ending-in-escaped-backslash": "D28",
+    "empty-immediate-list": "D29",
+    "unknown-opcode-extending-rule-key": "D30",
+    "regex-recursion-on-long-program": "D32",
 }
 
 MAX_REPORTED = 5
